@@ -72,7 +72,7 @@ pub fn oracle(cfg: &Cfg, recs: &[DrawRec]) -> Option<(String, String)> {
 pub fn main(tier: &str, seed: u64, outdir: &str) {
     let mut cases = Cases::new();
     let mut rep = Report::new("C18");
-    let n = if tier == "thorough" { 600 } else { 120 };
+    let n = if tier == "thorough" { 4000 } else { 120 };
     for case in 0..n {
         let mut r = Sm::new(seed, "C18", case);
         let dim = 2 + r.below(if case % 4 == 0 { 30 } else { 5 }) as usize;
